@@ -37,13 +37,15 @@
 EXTENDS Integers, FiniteSets, Sequences, TLC
 
 CONSTANTS AIds, BIds, Vals, Rel, BReq, Casc, MaxLevel,
+          ChildCasc,     \* one-to-one only: cascade_delete declared on the side that holds the column (deleting B deletes its A)
           WithReads      \* FALSE: read actions are left out of Next (the replay asks reads through `view` in every state anyway)
 
 ASSUME Rel \in {"o2m", "o2o", "m2m", "mix"}
-ASSUME BReq \in BOOLEAN /\ Casc \in BOOLEAN
+ASSUME BReq \in BOOLEAN /\ Casc \in BOOLEAN /\ ChildCasc \in BOOLEAN
+ASSUME ChildCasc => Rel = "o2o" /\ ~BReq /\ ~Casc
 
 VARIABLES db, tx, cur,       \* database states
-          sess,              \* "none" | "open" | "aborted"
+          sess,              \* "none" | "open" | "aborted" (a flush failed) | "stuck" (a call reported a hidden conflict)
           pendNew, pendDel,  \* objects created / deleted by the session and not flushed yet: sets of <<e, k>>
           known, loadedB,    \* lower bounds of the identity map: <<e,k>> indexed by pk; B objects with u indexed
           ev,                \* observation record of the last call
@@ -169,10 +171,12 @@ TFail(op, e, k, x, y) ==
     /\ UNCHANGED <<db, tx, cur, pendNew, pendDel, known, loadedB>>
 
 (* a conflict with a row the session had not indexed may also surface as TransactionIntegrityError while the
-   call loads that row (e.g. the one-to-one partner lookup): the transaction cannot go on *)
+   call loads that row (e.g. the one-to-one partner lookup). This is a conflict reported "when the change is made"
+   (C14): the call has no effect (C13); the specification does not follow the session further ("stuck") except for
+   its end: a successful exit commits the view as it was before the call, a failing one commits nothing *)
 HFail(op, e, k, x, y) ==
     /\ ev' = Ev(op, e, k, x, y, "Integrity", {})
-    /\ sess' = "aborted"
+    /\ sess' = "stuck"
     /\ UNCHANGED <<db, tx, cur, pendNew, pendDel, known, loadedB>>
 
 (* Create A(id=k, v=x).
@@ -258,6 +262,16 @@ SetU(k, y) ==
              /\ ev' = Ev("SetU", "B", k, y, 0, "ok", {})
              /\ UNCHANGED <<db, tx, sess, pendNew, pendDel>>
 
+(* deleting objects in the session's view: bookkeeping of pending sets *)
+AfterDelete(objs) ==
+    /\ pendNew' = pendNew \ objs                        \* created and deleted: cancelled
+    /\ pendDel' = pendDel \cup (objs \ pendNew)         \* persistent: marked_to_delete until flushed
+
+(* cascade_delete declared on B.a (ChildCasc): assigning another value to b.a deletes the object it referred to
+   (what the code does in Attribute.update_reverse: the old parent would otherwise be left without its child) *)
+OrphanOf(k) == IF ChildCasc /\ cur.B[k].a # 0 THEN {<<"A", cur.B[k].a>>} ELSE {}
+Orphaned(s, k) == IF ChildCasc /\ cur.B[k].a # 0 THEN RemoveA(s, cur.B[k].a) ELSE s
+
 (* b.a = z   (o2m, o2o) *)
 SetRef(k, z) ==
     /\ Open /\ Rel # "m2m" /\ cur.B[k].ex /\ cur.B[k].a # z
@@ -270,12 +284,13 @@ SetRef(k, z) ==
           \/ /\ rival # {} /\ BReq
              /\ Fail("SetRef", "B", k, z, 0, "ConstraintError", learnt \cup {<<"B", b0>> : b0 \in rival})
           \/ /\ ~(z = 0 /\ BReq) /\ ~(rival # {} /\ BReq)
-             /\ cur' = [cur EXCEPT !.B = [j \in BIds |-> IF j = k THEN [cur.B[j] EXCEPT !.a = z]
-                                                      ELSE IF j \in rival THEN [cur.B[j] EXCEPT !.a = 0]
-                                                      ELSE cur.B[j]]]
-             /\ known' = known \cup learnt \cup {<<"B", b0>> : b0 \in rival}
+             /\ cur' = Orphaned([cur EXCEPT !.B = [j \in BIds |-> IF j = k THEN [cur.B[j] EXCEPT !.a = z]
+                                                               ELSE IF j \in rival THEN [cur.B[j] EXCEPT !.a = 0]
+                                                               ELSE cur.B[j]]], k)
+             /\ AfterDelete(OrphanOf(k))
+             /\ known' = known \cup learnt \cup {<<"B", b0>> : b0 \in rival} \cup OrphanOf(k)
              /\ ev' = Ev("SetRef", "B", k, z, 0, "ok", {})
-             /\ UNCHANGED <<db, tx, sess, pendNew, pendDel, loadedB>>
+             /\ UNCHANGED <<db, tx, sess, loadedB>>
 
 (* b.set(u=y, a=z): both attributes change, all or nothing *)
 SetMany(k, y, z) ==
@@ -296,18 +311,14 @@ SetMany(k, y, z) ==
           \/ TFail("SetMany", "B", k, y, z)
           \/ (uholders # {} /\ ~uindexed /\ HFail("SetMany", "B", k, y, z))
           \/ /\ ~uindexed /\ ~refBad /\ ~rivalBad
-             /\ cur' = [cur EXCEPT !.B = [j \in BIds |-> IF j = k THEN [cur.B[j] EXCEPT !.u = y, !.a = z]
-                                                      ELSE IF j \in rival THEN [cur.B[j] EXCEPT !.a = 0]
-                                                      ELSE cur.B[j]]]
-             /\ known' = known \cup learnt \cup {<<"B", b0>> : b0 \in rival}
+             /\ cur' = Orphaned([cur EXCEPT !.B = [j \in BIds |-> IF j = k THEN [cur.B[j] EXCEPT !.u = y, !.a = z]
+                                                               ELSE IF j \in rival THEN [cur.B[j] EXCEPT !.a = 0]
+                                                               ELSE cur.B[j]]], k)
+             /\ AfterDelete(OrphanOf(k))
+             /\ known' = known \cup learnt \cup {<<"B", b0>> : b0 \in rival} \cup OrphanOf(k)
              /\ loadedB' = loadedB \cup {k}
              /\ ev' = Ev("SetMany", "B", k, y, z, "ok", {})
-             /\ UNCHANGED <<db, tx, sess, pendNew, pendDel>>
-
-(* deleting objects in the session's view: bookkeeping of pending sets *)
-AfterDelete(objs) ==
-    /\ pendNew' = pendNew \ objs                        \* created and deleted: cancelled
-    /\ pendDel' = pendDel \cup (objs \ pendNew)         \* persistent: marked_to_delete until flushed
+             /\ UNCHANGED <<db, tx, sess>>
 
 (* a.bs.add(b) *)
 CollAdd(a, b) ==
@@ -405,9 +416,12 @@ DeleteA(a) ==
 (* b.delete() *)
 DeleteB(b) ==
     /\ Open /\ cur.B[b].ex
-    /\ \/ /\ cur' = RemoveB(cur, {b})
-          /\ AfterDelete({<<"B", b>>})
-          /\ known' = known \cup {<<"B", b>>}
+    /\ \/ /\ LET p == cur.B[b].a
+                 up == ChildCasc /\ p # 0       \* the declared cascade runs from the child to its parent
+                 gone == {<<"B", b>>} \cup (IF up THEN {<<"A", p>>} ELSE {})
+             IN /\ cur' = IF up THEN RemoveA(RemoveB(cur, {b}), p) ELSE RemoveB(cur, {b})
+                /\ AfterDelete(gone)
+                /\ known' = known \cup gone
           /\ ev' = Ev("Delete", "B", b, 0, 0, "ok", {})
           /\ UNCHANGED <<db, tx, sess, loadedB>>
        \/ TFail("Delete", "B", b, 0, 0)
@@ -427,8 +441,8 @@ BulkDeleteA(a) ==
              /\ cur' = after /\ tx' = after
              /\ ev' = Ev("BulkDelete", "A", a, 0, 0, "ok", {})
              /\ UNCHANGED <<db, sess, pendNew, pendDel, known, loadedB>>
-          \/ /\ refused
-             /\ sess' = "aborted"
+          \/ /\ refused         \* the statement is refused, nothing else happens: a failed call, not a failed flush
+             /\ sess' = "stuck"
              /\ ev' = Ev("BulkDelete", "A", a, 0, 0, "Integrity", {})
              /\ UNCHANGED <<db, tx, cur, pendNew, pendDel, known, loadedB>>
 
@@ -525,7 +539,7 @@ Commit ==
 
 (* rollback(): every cache is closed, objects become detached; the db_session goes on with a new cache *)
 Rollback ==
-    /\ sess \in {"open", "aborted"}
+    /\ sess \in {"open", "aborted", "stuck"}
     /\ sess' = "open" /\ cur' = db /\ tx' = db /\ CloseSession
     /\ ev' = Ev("Rollback", "-", 0, 0, 0, "ok", {})
     /\ UNCHANGED db
@@ -550,9 +564,18 @@ EndAfterFailure ==
     /\ \E out \in {"Integrity", "ok", "Internal"} : ev' = Ev("End", "-", 0, 0, 0, out, {})
     /\ UNCHANGED db
 
+(* leaving the db_session normally after a call reported a hidden conflict (HFail) and the program caught the error *)
+EndAfterCallFailure ==
+    /\ sess = "stuck"
+    /\ sess' = "none" /\ CloseSession
+    /\ \/ /\ db' = cur /\ tx' = cur /\ UNCHANGED cur
+          /\ ev' = Ev("End", "-", 0, 0, 0, "ok", {})
+       \/ /\ cur' = db /\ tx' = db /\ UNCHANGED db
+          /\ \E out \in {"Integrity", "Internal"} : ev' = Ev("End", "-", 0, 0, 0, out, {})
+
 (* leaving the db_session with an exception: rollback *)
 EndExc ==
-    /\ sess \in {"open", "aborted"}
+    /\ sess \in {"open", "aborted", "stuck"}
     /\ sess' = "none" /\ cur' = db /\ tx' = db /\ CloseSession
     /\ ev' = Ev("EndExc", "-", 0, 0, 0, "ok", {})
     /\ UNCHANGED db
@@ -574,7 +597,7 @@ Reads  == \/ \E k \in AIds : GetV(k) \/ Coll(k) \/ LColl(k)
           \/ \E e \in {"A", "B"} : SelAll(e) \/ \E k \in Ids(e) : Find(e, k)
           \/ \E y \in Vals : FindU(y)
 
-Control == Begin \/ Tau \/ Flush \/ Commit \/ Rollback \/ EndOk \/ EndAfterFailure \/ EndExc
+Control == Begin \/ Tau \/ Flush \/ Commit \/ Rollback \/ EndOk \/ EndAfterFailure \/ EndAfterCallFailure \/ EndExc
 
 Next == /\ (Modify \/ (WithReads /\ Reads) \/ Control)
         /\ view' = [ViewOf(cur') EXCEPT !.quiet = (sess' = "open" /\ ~Doomed' /\ ~Transient')]
@@ -589,7 +612,7 @@ DataView == <<db, tx, cur, sess, pendNew, pendDel>>
 ---------------------------------------------------------------------------
 (* Properties checked by TLC *)
 
-TypeOK == /\ sess \in {"none", "open", "aborted"}
+TypeOK == /\ sess \in {"none", "open", "aborted", "stuck"}
           /\ pendNew \subseteq ({"A"} \X AIds) \cup ({"B"} \X BIds)
           /\ pendDel \subseteq ({"A"} \X AIds) \cup ({"B"} \X BIds)
 
